@@ -56,7 +56,7 @@ Proof. unfold bxor. rewrite <- N.lxor_assoc, N.lxor_nilpotent, N.lxor_0_l. refle
 
 Lemma make_core z b m : exists h, fst (make z b m) = set_hashes (core b m) (h :: hashes (core b m)).
 Proof.
-  unfold make, core, new_fifty, new_ep. rewrite lxor_cancel.
+  unfold make, make_l, core, new_fifty, new_ep. rewrite lxor_cancel.
   set (b0 := set_castles _ _).
   destruct (remove_piece z b0 _ _ _) as [b1 h1] eqn:E1.
   apply (f_equal fst) in E1. rewrite remove_piece_fst in E1. cbn [fst] in E1. subst b1.
